@@ -84,6 +84,14 @@ def fixed_fits(o, vals):
   return True, None
 
 
+def one_step_over(o, v):
+  """is v exactly one grid step above the largest value of the signed fixed-point type o (code == 2^mag)?"""
+  sg = int(bool(o.is_signed))
+  frac = int(o.bits) - int(o.int_bits) - sg
+  mag = int(o.bits) - sg
+  return bool(sg) and Fraction(float(v)) * (Fraction(2) ** frac) == 2 ** mag
+
+
 def src_grid(sq):
   """(step, lo code, hi code) of a quantized_bits source quantizer object"""
   ub = sq.bits - int(sq.keep_negative)
@@ -188,8 +196,13 @@ def main():
         if xin is not None and iq is not None and iq.mode == 0 and not iq.is_floating_point and not after_auto:
           ok, bad = fixed_fits(iq, xin)
           if not ok:
-            rep.violation(f"input-type-{i}-{wmode}-{l.name}", f"{l.name}: an input value {bad} does not fit the reported input type "
-                          f"(bits {iq.bits}, int_bits {iq.int_bits}, signed {iq.is_signed}); model {meta}, source {sqs}", {"model": meta, "weights": wmode})
+            msg = (f"{l.name}: an input value {bad} does not fit the reported input type "
+                   f"(bits {iq.bits}, int_bits {iq.int_bits}, signed {iq.is_signed}); model {meta}, source {sqs}, weights {wmode}")
+            if one_step_over(iq, bad) and wmode in ("all-min", "signs"):
+              rep.finding("C18-most-negative-times-most-negative-overflows-by-one", msg + " (the producing layer's accumulator, exactly one step above its top)",
+                          {"model": meta, "weights": wmode, "source": sqs})
+            else:
+              rep.violation(f"input-type-{i}-{wmode}-{l.name}", msg, {"model": meta, "weights": wmode})
         if tname == "QActivation":
           oq = fld(e, "output_quantizer")
           if oq.mode == 0 and not oq.is_floating_point:
@@ -223,21 +236,11 @@ def main():
         ok, bad = fixed_fits(acc, pre)
         if not ok:
           good = False
-          corner = ("asym" in [k for k, s in WQ if s == [t for t in meta["layers"] if t[0] == l.name][0][2]][0]) and not auto
-          fid = None
-          kname = [k for k, s in WQ if s == [t for t in meta["layers"] if t[0] == l.name][0][2]][0]
           msg = (f"{tname} {l.name} kernel {qs[0]} bias {qs[1] if l.use_bias else None} input type (bits {iq.bits}, int {iq.int_bits}, signed {iq.is_signed}), "
                  f"weights {wmode}: pre-activation value {bad} is not representable in the reported accumulator (bits {acc.bits}, int_bits {acc.int_bits}, "
                  f"signed {acc.is_signed})")
-          if kname in ("ternary", "binary"):
-            fid = "C18-accumulator-after-ternary-binary-weights"
-          elif kname == "po2":
-            fid = "C18-accumulator-after-po2-weights"
-          elif corner and bool(iq.is_signed):
-            # most-negative x most-negative: the excluded corner of the multiplier theorem
-            sg = int(bool(acc.is_signed)); mag = int(acc.bits) - sg; frac = int(acc.bits) - int(acc.int_bits) - sg
-            if Fraction(float(bad)) * Fraction(2) ** frac == 2 ** mag:
-              fid = "C18-most-negative-times-most-negative-overflows-by-one"
+          # most-negative x most-negative: the corner excluded by the multiplier / shifter / mux theorems -- exactly one step above the top
+          fid = "C18-most-negative-times-most-negative-overflows-by-one" if (one_step_over(acc, bad) and bool(iq.is_signed) and wmode in ("all-min", "signs")) else None
           if fid:
             rep.finding(fid, msg, {"model": meta, "weights": wmode, "source": sqs})
           else:
@@ -275,7 +278,12 @@ def main():
             with tf.keras.utils.custom_object_scope(co):
               sizes = estimate.analyze_accumulator(qm, ranges)
           except Exception as e:  # pylint: disable=broad-except
-            rep.violation(f"estimator-raises-{i}-{wmode}", f"analyze_accumulator raised {type(e).__name__}: {str(e)[:200]} on {meta['layers']}", {"model": meta})
+            if isinstance(e, (OverflowError, ValueError)) and ("infinity" in str(e) or "NaN" in str(e)):
+              rep.finding("C18-analyze-accumulator-raises-when-no-channel-has-a-positive-bound",
+                          f"analyze_accumulator raised {type(e).__name__}: {str(e)[:100]} on {meta['layers']} with input ranges {ranges}: "
+                          "int(ceil(log2(0))) for a layer whose every channel bound is 0", {"model": meta, "ranges": str(ranges)})
+            else:
+              rep.violation(f"estimator-raises-{i}-{wmode}", f"analyze_accumulator raised {type(e).__name__}: {str(e)[:200]} on {meta['layers']}", {"model": meta})
             sizes = {}
           for l in wlayers:
             if l.name not in sizes:
